@@ -2,6 +2,7 @@ package analyzer
 
 import (
 	"fmt"
+	"sort"
 
 	"github.com/smarthome-go/homescript/v3/homescript/analyzer/ast"
 	"github.com/smarthome-go/homescript/v3/homescript/errors"
@@ -69,7 +70,15 @@ func (self *Analyzer) WithCapabilities(
 	// This way, redundant compatibility errors are not shown
 	conflictsReverse := make(map[string]string)
 
-	for capName, capability := range capabilitiesOfImplementation {
+	// In name order: which of two mutually conflicting capabilities is reported must not depend on map iteration order.
+	capNames := make([]string, 0, len(capabilitiesOfImplementation))
+	for capName := range capabilitiesOfImplementation {
+		capNames = append(capNames, capName)
+	}
+	sort.Strings(capNames)
+
+	for _, capName := range capNames {
+		capability := capabilitiesOfImplementation[capName]
 		// Check that there are no capability conflicts
 		containsErr, conflictFound, diagnotsics := ast.DetermineCapabilityConflicts(
 			templateSpec,
